@@ -550,7 +550,9 @@ type Consent struct {
 	// Scopes / Audience to grant; nil => everything requested.
 	Scopes   []string
 	Audience []string
-	GrantNil bool // grant nothing at all
+	// ExtraAudience is granted whether or not it was requested (an integrator's default audience).
+	ExtraAudience []string
+	GrantNil      bool // grant nothing at all
 }
 
 type AuthzResult struct {
@@ -688,6 +690,9 @@ func (w *World) AuthorizeRaw(method, rawQuery string, form url.Values, c Consent
 					ar.GrantAudience(a)
 				}
 			}
+		}
+		for _, a := range c.ExtraAudience {
+			ar.GrantAudience(a)
 		}
 	}
 	res.Granted = append(fosite.Arguments{}, ar.GetGrantedScopes()...)
